@@ -167,7 +167,8 @@ def purity(ctx: Ctx) -> None:
     sc = p.func(f"{CV}:_should_copy_property")
     okg = len(fs) == 1 and fs[0][1] and isinstance(fs[0][0], ast.Call) and callee(ctx, cp, fs[0][0]) is sc and [ast.unparse(a) for a in fs[0][0].args[:2]] == [k, v]
     ctx.expect("R-TABLE", cp, "a property is copied exactly when the policy says so", okg, unparse_facts(fs), f"store guarded by {unparse_facts(fs)}", node=st)
-    ip = [b for b in locals_of(cp).b.get("invalid_properties", []) if b.kind == "assign"]
+    ipn = fs[0][0].args[2].id if okg and len(fs[0][0].args) > 2 and isinstance(fs[0][0].args[2], ast.Name) else "invalid_properties"
+    ip = [b for b in locals_of(cp).b.get(ipn, []) if b.kind == "assign"]
     oki = len(ip) == 1 and matches("INVALID_PROPERTIES.get(output_type, {})", ip[0].value)
     ctx.expect("R-TABLE", cp, "the invalid-property table is the one of the output type", oki, "", f"{src(ip[0].value) if ip else ''}", node=cp.node)
     skips = [n for st_ in l.body for n in walk_no_nested(st_) if isinstance(n, (ast.Continue, ast.Break, ast.Return))]
@@ -351,7 +352,9 @@ def policy_dispatch(ctx: Ctx) -> None:
     f = p.func(f"{CV}:_should_copy_property")
     prop, val, invp, behp = f.param_names()
     loc = locals_of(f)
-    bb = [b for b in loc.b.get("behavior", []) if b.kind == "assign"]
+    bnames = [n for n, bs in loc.b.items() for b in bs if b.kind == "assign" and match("$m.get($k) or INVALID_PROPERTY_BEHAVIORS[$k]", b.value) is not None]
+    BN = bnames[0] if len(bnames) == 1 else "behavior"
+    bb = [b for b in loc.b.get(BN, []) if b.kind == "assign"]
     okl = len(bb) == 1 and match("$m.get($k) or INVALID_PROPERTY_BEHAVIORS[$k]", bb[0].value) is not None
     if okl:
         m = match("$m.get($k) or INVALID_PROPERTY_BEHAVIORS[$k]", bb[0].value)
@@ -377,7 +380,7 @@ def policy_dispatch(ctx: Ctx) -> None:
                 return True
         return False
 
-    B = "behavior == InvalidPropertyBehavior."
+    B = f"{BN} == InvalidPropertyBehavior."
     ctx.expect("R-TABLE", f, "COPY_ANYWAY -> copied", has(("return", True), [listed, (B + "COPY_ANYWAY", True)]), "", str(outcomes), node=f.node)
     ctx.expect("R-TABLE", f, "IGNORE -> silently left out", has(("return", False), [listed, (B + "IGNORE", True)]), "", str(outcomes), node=f.node)
     ctx.expect("R-TABLE", f, "ERROR_UNLESS_DEFAULT -> left out iff the trimmed value is the default",
